@@ -15,12 +15,12 @@ Is(e) == l <= Len(Trace) /\ Ev.ev = e
 Consume == l' = l + 1
 
 ScOf(j) == [pats |-> j.pats, defects |-> ToSet(j.defects), quiet |-> j.quiet, stub |-> j.stub,
-            ignoreP |-> j.ignoreP, ignoreS |-> j.ignoreS, outpre |-> j.outpre]
+            ignoreP |-> j.ignoreP, ignoreS |-> j.ignoreS, outpre |-> j.outpre, free |-> j.free]
 
 TraceInit ==
   /\ TLCSet(1, 0)
   /\ l = 1 /\ phase = "idle"
-  /\ sc = [pats |-> <<>>, defects |-> {}, quiet |-> FALSE, stub |-> FALSE, ignoreP |-> FALSE, ignoreS |-> FALSE, outpre |-> "absent"]
+  /\ sc = [pats |-> <<>>, defects |-> {}, quiet |-> FALSE, stub |-> FALSE, ignoreP |-> FALSE, ignoreS |-> FALSE, outpre |-> "absent", free |-> FALSE]
   /\ pc = "idle" /\ steps = <<>> /\ subs = <<>> /\ nerr = 0 /\ exit = Running /\ out = "pre"
 
 TraceRun == Is("run") /\ phase = "idle" /\ Start(ScOf(Ev.sc)) /\ phase' = "steps" /\ Consume
